@@ -107,7 +107,7 @@ int main(int argc, char **argv)
             bytes = opus_encode(e, in, fs, pk, 1275);
             if (bytes < 2) continue;
             ret = opus_decode(d[ch - 1], pk, bytes, pcm, 5760, 0);
-            if (ret < 0 || g_cur_slack < 0) { fired++; if (shown++ < 20) { printf("W ret=%s slack=%d end=%d pkt=", ret < 0 ? verr(ret) : "ok", g_cur_slack, g_cur_end); vhex(stdout, pk, bytes); printf("\n"); } }
+            if (ret < 0 || g_cur_end < 0) { fired++; if (shown++ < 20) { printf("W ch=%d ret=%s slack=%d end=%d pkt=", ch, ret < 0 ? verr(ret) : "ok", g_cur_slack, g_cur_end); vhex(stdout, pk, bytes); printf("\n"); } }
          }
          opus_encoder_destroy(e);
       }
@@ -200,9 +200,10 @@ int main(int argc, char **argv)
       if (vchance(&r, 10)) opus_decoder_ctl(d[st], OPUS_RESET_STATE);
       ret = opus_decode(d[st], pk, len + 1, pcm, 5760, 0);
       if (ret < 0) nerr++;
-      if ((ret < 0 || g_min_slack < before_slack || g_min_end < before_end) && shown < 40 && (ret < 0 || g_cur_slack < 1 || g_cur_end < 0)) {
+      (void)before_slack; (void)before_end;
+      if ((ret < 0 || g_cur_end < 0) && shown < 40) {
          shown++;
-         printf("W ret=%s slack=%d end=%d pkt=", ret < 0 ? verr(ret) : "ok", g_cur_slack, g_cur_end); vhex(stdout, pk, len + 1); printf("\n");
+         printf("W ch=%d ret=%s slack=%d end=%d pkt=", st + 1, ret < 0 ? verr(ret) : "ok", g_cur_slack, g_cur_end); vhex(stdout, pk, len + 1); printf("\n");
       }
    }
    printf("# frames=%ld decode_errors=%ld celt_errors=%ld min_slack_after_bands=%d min_bits_left_at_end=%d max_pvq_drift=%d\n# slack histogram:",
